@@ -115,9 +115,12 @@ pub enum Project {
 impl Project {
     fn shape(self) -> Shape {
         match self {
-            Project::Individuals(individuals) => {
-                Shape(individuals.into_iter().map(|i| 2 * i + 1).collect())
-            }
+            Project::Individuals(individuals) => Shape(
+                individuals
+                    .into_iter()
+                    .map(|i| i.saturating_mul(2).saturating_add(1))
+                    .collect(),
+            ),
             Project::Shape(shape) => shape,
         }
     }
